@@ -27,14 +27,14 @@ BOUNDS = {
     'quick': 'tables of 3 rows x 4 declared columns: \\multicolumn at every (row, position) with a symbolic span; every placement of {none, \\hline, \\cline{a-b}} in two of the four rule '
              'slots with a,b symbolic in 1..4, with and without a spanning cell; 6 column specifications incl. *{n}{..} with symbolic n and bars inside/outside; empty cells; '
              '8 specifications with @{} (leading, between, with bars), p{}, >{} / <{}; rules next to content-less rows (bare \\\\, empty cells, \\\\[len]) at the end and between rows; '
-             'an ungrouped declaration in each cell of 2 rows; lists: 15 skeletons (itemize/enumerate/description nested to depth 3, multi-paragraph items, terms with brackets, '
+             'an ungrouped declaration in each cell of 2 rows; a 2x2 tabular nested in 3 positions of a 2x2 tabular x inner rule {none, \\hline, \\cline} x outer rules; lists: 15 skeletons (itemize/enumerate/description nested to depth 3, multi-paragraph items, terms with brackets, '
              'grouped and ungrouped declarations in items) with symbolic item characters, and a blank line / newline / comment between \\begin and the first \\item',
     'thorough': 'all placements of rules in the four slots; 4-row tables; lists nested to depth 4',
 }
 ASSUMPTIONS = ['a horizontal rule written between two rows may be recorded either as the bottom border of the row above or as the top border of the row below',
                'a rule range [a,b] marks a cell iff the cell\'s column interval meets [a,b] (DESIGN.md section 5 C10)',
                'p{} / @{} column contents are not examined']
-OUTSIDE = ['longtable, tabularx, booktabs rules', 'nested tabulars', 'tables wider than 4 columns']
+OUTSIDE = ['longtable, tabularx, booktabs rules', 'tables nested more than one level', 'tables wider than 4 columns']
 BUDGET_S = {'quick': 900, 'thorough': 3300}
 
 ALIGN = {'l': 'left', 'c': 'center', 'r': 'right'}
@@ -362,6 +362,67 @@ def h_celldecl(e, row, k):
     e.nontriv()
 
 
+def h_nested(e, pos, inner_rule, outer_rule):
+    """a tabular inside a cell of a tabular: each table keeps its own rows, cells and rules"""
+    pos = tuple(pos)
+    ic = [[e.char('i%d%d' % (r, k), 97, 122) for k in range(2)] for r in range(2)]
+    oc = {(r, k): e.char('o%d%d' % (r, k), 97, 122) for r in range(2) for k in range(2) if (r, k) != pos}
+    inner = ['\\begin{tabular}{c|c}', ic[0][0], '&', ic[0][1], '\\\\ '] + (['\\hline '] if inner_rule == 'hline' else (['\\cline{2-2} '] if inner_rule == 'cline' else [])) + \
+            [ic[1][0], '&', ic[1][1], '\\end{tabular}']
+    parts = ['\\begin{tabular}{l|l}']
+    if outer_rule in ('top', 'both'):
+        parts.append('\\hline ')
+    for r in range(2):
+        for k in range(2):
+            if k:
+                parts.append('&')
+            parts.extend(inner if (r, k) == pos else [oc[(r, k)]])
+        parts.append('\\\\ ')
+        if r == 0 and outer_rule in ('middle-cline', 'both'):
+            parts.append('\\cline{2-2} ')
+    parts.append('\\end{tabular}')
+    out = _parse(e, parts)
+    if out is None:
+        return
+    tabs = out.getElementsByTagName('tabular')
+    e.check(len(tabs) == 2, '%d tabular nodes for one table nested in another' % len(tabs), 'table-rows')
+    if len(tabs) != 2:
+        return
+    outer = tabs[0]
+    rows = _rows(outer)
+    e.check(len(rows) == 2 and all(len([c for c in r.childNodes]) == 2 for r in rows), 'outer table shape: %s' % [len(r.childNodes) for r in rows], 'table-cells')
+    if not (len(rows) == 2 and all(len(r.childNodes) == 2 for r in rows)):
+        return
+    cell = rows[pos[0]].childNodes[pos[1]]
+    inners = cell.getElementsByTagName('tabular')
+    e.check(len(inners) == 1, 'the nested table is not inside the cell it was written in', 'table-cells')
+    if len(inners) != 1:
+        return
+    irows = _rows(inners[0])
+    e.check(len(irows) == 2 and all(len(r.childNodes) == 2 for r in irows), 'inner table shape', 'table-cells')
+    if not (len(irows) == 2 and all(len(r.childNodes) == 2 for r in irows)):
+        return
+    for r in range(2):
+        for k in range(2):
+            e.check(eq(_celltext(irows[r].childNodes[k]), ic[r][k]), 'inner cell (%d,%d) text' % (r, k), 'table-cells')
+            if (r, k) != pos:
+                e.check(eq(_celltext(rows[r].childNodes[k]), oc[(r, k)]), 'outer cell (%d,%d) text' % (r, k), 'table-cells')
+    # rules: the inner rule lies between the inner rows only; the outer rules mark outer cells only
+    def between(rws, k):
+        return _has(rws[0].childNodes[k], 'bottom') or _has(rws[1].childNodes[k], 'top')
+    for k in range(2):
+        want_i = inner_rule == 'hline' or (inner_rule == 'cline' and k == 1)
+        e.check(between(irows, k) == want_i, 'inner table, column %d: rule between its rows %s, written: %s' % (k + 1, between(irows, k), inner_rule), 'hrule-missing' if want_i else 'hrule-extra')
+        want_o = outer_rule in ('middle-cline', 'both') and k == 1
+        e.check(between(rows, k) == want_o, 'outer table, column %d: rule between its rows %s, written: %s' % (k + 1, between(rows, k), outer_rule), 'hrule-missing' if want_o else 'hrule-extra')
+        e.check(_has(rows[0].childNodes[k], 'top') == (outer_rule in ('top', 'both')), 'outer table, column %d: top rule' % (k + 1), 'hrule')
+        e.check(not _has(irows[0].childNodes[k], 'top') and not _has(irows[1].childNodes[k], 'bottom'), 'inner table, column %d carries a rule of the outer table' % (k + 1), 'hrule-extra')
+        e.check(not _has(rows[1].childNodes[k], 'bottom'), 'outer table, column %d: bottom rule though none was written' % (k + 1), 'hrule-extra')
+    # the vertical bar of each specification
+    e.check(bool(rows[0].childNodes[0].style.get('border-right')) and bool(irows[0].childNodes[0].style.get('border-right')), 'vertical bars of the two specifications', 'cell-vbar')
+    e.nontriv()
+
+
 SPACERS = {'none': '', 'empty-row': '\\\\ ', 'empty-cells': '&&&\\\\ ', 'skip': '\\\\[2pt] ', 'two-empty': '\\\\ \\\\ '}
 
 
@@ -583,6 +644,12 @@ def jobs(tier, seed):
             continue
         for mc in (False, True):
             J.append(dict(harness='h_rules', params=dict(slots=list(slots), mc=mc, empty_first=(i % 3 == 0)), label='rules %s mc=%s' % ('/'.join(slots), mc), no_twin=True))
+    for pos in ((0, 0), (0, 1), (1, 1)):
+        for ir in ('none', 'hline', 'cline'):
+            for orule in ('none', 'top', 'middle-cline', 'both'):
+                if q and (pos[0] + pos[1] + ('none', 'hline', 'cline').index(ir) + ('none', 'top', 'middle-cline', 'both').index(orule) + seed) % 2:
+                    continue
+                J.append(dict(harness='h_nested', params=dict(pos=list(pos), inner_rule=ir, outer_rule=orule), label='nested tabular at %s inner=%s outer=%s' % (pos, ir, orule), no_twin=True))
     for spacer in SPACERS:
         for kind in ('hline', 'cline'):
             for pos in ('end', 'middle-before', 'middle-after'):
